@@ -17,12 +17,17 @@
 (*   ClearKeepsTtl  clear() forgets m_ttl_list.clear()                     *)
 (*   EraseToListEnd do_erase splices the freed node to list.end() instead  *)
 (*                  of the partition iterator                              *)
+(*   UpdateFilesOld tlru do_update re-files the ttl node under the OLD     *)
+(*                  expire time (the new one is assigned afterwards)       *)
+(* For tlru the ttl structure is a std::multimap keyed by expire time: it  *)
+(* is modelled by the same sequence, always filed at the sorted position   *)
+(* (behind equal keys), and insert takes the ttl as an argument.           *)
 (***************************************************************************)
 EXTENDS Cappuccino
 
-CONSTANTS Kind,            \* "lru" | "mru" | "utlru"
+CONSTANTS Kind,            \* "lru" | "mru" | "utlru" | "tlru"
           Cap, Vals, Ttls, TickSteps,
-          TtlWriteOrder, ClearKeepsTtl, EraseToListEnd
+          TtlWriteOrder, ClearKeepsTtl, EraseToListEnd, UpdateFilesOld
 
 VARIABLES lst,       \* the lru/mru list: sequence of slot ids (a permutation of Slots)
           endIt,     \* the partition iterator: a slot id, or EndIt
@@ -41,13 +46,14 @@ lvars == <<lst, endIt, ttlList, ttl, index, eKey, eVal, eExp, eInTtl, used, ub, 
 Slots  == 1..Cap
 EndIt  == 0
 NoSlot == 0
-IsTtl  == Kind = "utlru"
+IsTtl  == Kind \in {"utlru", "tlru"}
+IsUt   == Kind = "utlru"
 
 Init ==
   /\ lst = [i \in 1..Cap |-> i]
   /\ endIt = 1
   /\ ttlList = <<>>
-  /\ ttl \in (IF IsTtl THEN Ttls ELSE {0})
+  /\ ttl \in (IF IsUt THEN Ttls ELSE {0})
   /\ index = [k \in Keys |-> NoSlot]
   /\ eKey = [i \in Slots |-> 0] /\ eVal = [i \in Slots |-> 0] /\ eExp = [i \in Slots |-> 0]
   /\ eInTtl = [i \in Slots |-> FALSE]
@@ -86,14 +92,14 @@ DoAccess(s, i) ==
   ELSE [s EXCEPT !.lst = Splice(s.lst, s.lst[1], i)]                     \* most recent = front
 
 \* utlru: file the node (currently the tail) at its sorted position, or leave it (pinned rule)
-TtlFile(s, i) ==
-  IF TtlWriteOrder THEN s
+TtlFileBy(s, i, key) ==
+  IF TtlWriteOrder /\ IsUt THEN s
   ELSE LET w == Without(s.ttlList, i)
-           \* walk back from the tail while the predecessor expires later
            RECURSIVE Walk(_)
-           Walk(p) == IF p >= 1 /\ s.eExp[w[p]] > s.eExp[i] THEN Walk(p - 1) ELSE p
+           Walk(p) == IF p >= 1 /\ s.eExp[w[p]] > key THEN Walk(p - 1) ELSE p
            at == Walk(Len(w))
        IN [s EXCEPT !.ttlList = SubSeq(w, 1, at) \o <<i>> \o SubSeq(w, at + 1, Len(w))]
+TtlFile(s, i) == TtlFileBy(s, i, s.eExp[i])
 
 DoErase(s, i) ==
   LET stale == i \notin InUseSet(s) \/ s.eKey[i] = 0 \/ s.index[s.eKey[i]] # i
@@ -137,13 +143,13 @@ DoUpdate(s, i, v, exp) ==
   LET s1 == [s EXCEPT !.eVal = [s.eVal EXCEPT ![i] = v], !.eExp = [s.eExp EXCEPT ![i] = exp],
                       !.ttlList = IF IsTtl THEN Append(Without(s.ttlList, i), i) ELSE s.ttlList,
                       !.ub = s.ub \/ (IsTtl /\ ~Has(s.ttlList, i))]
-      s2 == IF IsTtl THEN TtlFile(s1, i) ELSE s1
+      s2 == IF IsTtl THEN (IF UpdateFilesOld THEN TtlFileBy(s1, i, s.eExp[i]) ELSE TtlFile(s1, i)) ELSE s1
   IN DoAccess(s2, i)
 
 \* public calls ------------------------------------------------------------------
-Insert(k, v, a) ==
+Insert(k, v, a, d) ==
   /\ lastOp' = [op |-> "ins", k |-> k, v |-> v, a |-> a]
-  /\ LET exp == now + ttl IN
+  /\ LET exp == now + (IF Kind = "tlru" THEN d ELSE ttl) IN
      IF index[k] # NoSlot
      THEN IF UpdAllowed(a) THEN Set(DoUpdate(S, index[k], v, exp))
           ELSE IF IsTtl /\ InsAllowed(a) /\ now >= eExp[index[k]] THEN Set(DoUpdate(S, index[k], v, exp))
@@ -175,14 +181,14 @@ Clean ==
   /\ UNCHANGED <<ttl, now>>
 
 UpdateTtl(d) ==
-  /\ IsTtl
+  /\ IsUt
   /\ lastOp' = [op |-> "uttl", d |-> d]
   /\ ttl' = d
   /\ Set(S)
   /\ UNCHANGED now
 
 Clear ==
-  /\ IsTtl
+  /\ IsUt
   /\ lastOp' = [op |-> "clear"]
   /\ IF used > 0
      THEN Set([S EXCEPT !.lst = [i \in 1..Cap |-> i],      \* std::iota over the list
@@ -203,7 +209,7 @@ Tick(d) ==
 
 Next ==
   /\ ~ub
-  /\ \/ \E k \in Keys, v \in Vals, a \in {1, 2, 3} : Insert(k, v, a)
+  /\ \/ \E k \in Keys, v \in Vals, a \in {1, 2, 3}, d \in (IF Kind = "tlru" THEN Ttls ELSE {0}) : Insert(k, v, a, d)
      \/ \E k \in Keys : Erase(k)
      \/ \E k \in Keys, p \in BOOLEAN : Find(k, p)
      \/ Clean \/ Clear
